@@ -18,6 +18,9 @@ type CharSet struct {
 	sub        *CharSet //optional subtractor
 	negate     bool
 	anything   bool
+	// building is set while the parser is still adding items to the class: the
+	// normal forms below flip negate, which would corrupt the items added later
+	building bool
 
 	ascii *asciiBitmap
 }
@@ -868,6 +871,11 @@ func (c *CharSet) canonicalize() {
 		}
 
 		c.ranges = append(c.ranges[:j], c.ranges[len(c.ranges):]...)
+	}
+
+	if c.building {
+		// more items may follow; normalize once the class is complete
+		return
 	}
 
 	// If the class now represents a single negated range, but does so by including every
